@@ -57,6 +57,8 @@ type state struct {
 	eventsNotifyCount   prometheus.Counter
 	eventsFinishedCount prometheus.Counter
 	xorTreeRepair       *xorTreeRepair
+	// treeMutex makes sure a failed Add reloads the XOR and IBLT trees before another Add updates and persists them.
+	treeMutex sync.Mutex
 }
 
 func (s *state) Migrate() error {
@@ -168,6 +170,14 @@ func (s *state) Add(ctx context.Context, transaction Transaction, payload []byte
 		return nil
 	}
 
+	// The XOR and IBLT trees are updated in memory inside the DB transaction and reloaded from disk when it is rolled back.
+	// The DB write lock is released before the OnRollback hook is called, so without this lock a concurrent Add
+	// could persist trees that still contain the rolled back transaction.
+	s.treeMutex.Lock()
+	var unlockOnce sync.Once
+	unlockTrees := func() { unlockOnce.Do(s.treeMutex.Unlock) }
+	defer unlockTrees()
+
 	return s.db.Write(ctx, func(tx stoabs.WriteTx) error {
 		// TX already present on DAG, nothing to do
 		// We need to do this check again, because a concurrent call could've added the TX (e.g. we got it from another peer).
@@ -205,7 +215,7 @@ func (s *state) Add(ctx context.Context, transaction Transaction, payload []byte
 	}, stoabs.OnRollback(func() {
 		log.Logger().Warn("Reloading the XOR and IBLT trees due to a DB transaction Rollback")
 		s.loadState(ctx)
-	}), stoabs.AfterCommit(func() {
+	}), stoabs.AfterCommit(unlockTrees), stoabs.AfterCommit(func() {
 		if txAdded {
 			s.notify(txEvent)
 			if emitPayloadEvent {
